@@ -3,7 +3,7 @@
 //! whatever arrives on the bus and whatever documented API calls are interleaved.
 //!
 //! Workloads: (a) one station against a hostile scripted environment, bounded-exhaustive over a
-//! 16-action alphabet from 6 prefix states and random to depth 300, with every application kind;
+//! 17-action alphabet from 6 prefix states and random to depth 300, with every application kind;
 //! (b) the DP rig (0..3 peripherals, hostile slaves) with hostile frames and API calls on top;
 //! (c) multi-station rings under the C06 fault plans; (d) mutational replay of recorded traffic.
 
@@ -18,8 +18,8 @@ use crate::vbus::*;
 use crate::{Ctx, Tier};
 use profirust::fdl;
 
-pub const N_ACT: u64 = 16;
-const ACT_NAMES: [&str; 16] = [
+pub const N_ACT: u64 = 17;
+const ACT_NAMES: [&str; 17] = [
     "token-ps-to-ts",
     "token-ns-to-ts",
     "token-from-own-address",
@@ -35,6 +35,7 @@ const ACT_NAMES: [&str; 16] = [
     "data-request-with-saps",
     "garbage",
     "truncated-frame",
+    "short-body-with-extension-bits",
     "silence",
 ];
 
@@ -110,6 +111,19 @@ fn action_bytes(act: u8, ts: u8, ps: u8, ns: u8, awaiting: Option<u8>, rng: &mut
             let f = enc(RTel::Data { da: ts, sa: ps, dsap: Some(1), ssap: None, fc: RFc::Resp { state: 0, status: 8 }, pdu: rng.bytes(9) });
             let n = 1 + rng.usize(f.len() - 1);
             f[..n].to_vec()
+        }
+        15 => {
+            // a frame with a correct length field, checksum and end delimiter whose address bytes
+            // announce SAP bytes that the body is too short to hold
+            let le = 3 + rng.usize(3);
+            let mut body = vec![*rng.pick(&[ts, 127, stranger]) | if rng.chance(3, 4) { 0x80 } else { 0 }, *rng.pick(&[ps, ns, stranger]) | if rng.chance(3, 4) { 0x80 } else { 0 }, *rng.pick(&[0x08u8, 0x00, 0x6c, 0x49, 0x5d])];
+            body.extend(rng.bytes(le - 3));
+            let fcs = body.iter().fold(0u8, |a, b| a.wrapping_add(*b));
+            let mut f = vec![rc::SD2, le as u8, le as u8, rc::SD2];
+            f.extend_from_slice(&body);
+            f.push(fcs);
+            f.push(0x16);
+            f
         }
         _ => return None,
     })
